@@ -34,7 +34,7 @@ static unsigned leaders[MAXU];
 static unsigned long n_viol;
 
 struct stats {
-	unsigned long steps, failed_spins, returns, fast_reentry_steps, hang, viol, spread_scen;
+	unsigned long steps, failed_spins, returns, fast_reentry_steps, hang, viol, spread_scen, two_team_scen;
 };
 
 static void worker(unsigned tid, void *arg)
@@ -204,6 +204,7 @@ int main(int argc, char **argv)
 			policy = (unsigned)vrng_below(5);
 			sub = vrng();
 		}
+		int two_teams = !rep && vrng_below(4) == 0;
 		hist_n[N]++;
 		hist_pol[policy]++;
 		int pfd[2];
@@ -220,7 +221,23 @@ int main(int argc, char **argv)
 				vs_sched_n = rscen[sc].count;
 				vs_sched_i = 0;
 			}
-			scenario(policy, &st);
+			if(!rep && two_teams) {
+				/* a first team of another size uses the barrier a multiple of 4 times and exits (counters back at 0, the
+				 * process-wide statics of sync_thread_barrier stay): the team under test then re-uses the same barrier.
+				 * The model restarts at `init` (fresh state), which is what the real code must be equivalent to. */
+				unsigned n2 = N, u2 = U;
+				N = 2 + (unsigned)vrng_below(5);
+				if(N == n2)
+					N = n2 == 6 ? 2 : n2 + 1;
+				U = 4 * (1 + (unsigned)vrng_below(2));
+				scenario(0, &st);
+				memset(calls, 0, sizeof calls); memset(fadds, 0, sizeof fadds); memset(returned, 0, sizeof returned);
+				memset(ret_pending, 0, sizeof ret_pending); memset(leaders, 0, sizeof leaders);
+				N = n2; U = u2;
+				st.two_team_scen++;
+			}
+			if(!st.hang)
+				scenario(policy, &st);
 			fflush(f_ops); fflush(f_c); fflush(f_or);
 			if(write(pfd[1], &st, sizeof st) != sizeof st)
 				_exit(3);
@@ -241,15 +258,16 @@ int main(int argc, char **argv)
 		tot.steps += st.steps; tot.failed_spins += st.failed_spins; tot.returns += st.returns;
 		tot.fast_reentry_steps += st.fast_reentry_steps; tot.hang += st.hang; tot.viol += st.viol;
 		tot.spread_scen += st.spread_scen;
+		tot.two_team_scen += st.two_team_scen;
 		done_scen++;
 		if(st.hang)
 			break; /* c_out of a hung scenario is complete up to the budget; stop here */
 	}
 	printf("{\"scenarios\":%lu,\"steps\":%lu,\"returns\":%lu,\"failed_spins\":%lu,\"fast_reentry_steps\":%lu,"
-	       "\"scenarios_with_fast_reentry\":%lu,\"hangs\":%lu,\"crashes\":%lu,\"oracle_violations\":%lu,"
+	       "\"scenarios_with_fast_reentry\":%lu,\"scenarios_after_a_team_of_another_size\":%lu,\"hangs\":%lu,\"crashes\":%lu,\"oracle_violations\":%lu,"
 	       "\"threads_hist\":{\"2\":%lu,\"3\":%lu,\"4\":%lu,\"5\":%lu,\"6\":%lu},"
 	       "\"policy_hist\":{\"uniform\":%lu,\"sticky\":%lu,\"one_slow\":%lu,\"one_fast\":%lu,\"prefer_enter\":%lu}}\n",
-	    done_scen, tot.steps, tot.returns, tot.failed_spins, tot.fast_reentry_steps, tot.spread_scen, tot.hang,
+	    done_scen, tot.steps, tot.returns, tot.failed_spins, tot.fast_reentry_steps, tot.spread_scen, tot.two_team_scen, tot.hang,
 	    crashes, tot.viol, hist_n[2], hist_n[3], hist_n[4], hist_n[5], hist_n[6], hist_pol[0], hist_pol[1],
 	    hist_pol[2], hist_pol[3], hist_pol[4]);
 	fclose(f_ops); fclose(f_c); fclose(f_or);
